@@ -240,3 +240,74 @@ Definition check_cyclic (units : list nat) (es : list edge) (net : item) (cyc : 
 (* cyc = [] claims "the flowsheet has no cycle"; otherwise cyc is a cycle of the flowsheet *)
 Definition check (units : list nat) (es : list edge) (net : item) (cyc : list nat) : bool :=
   if is_nil cyc then check_acyclic units es net else check_cyclic units es net cyc.
+
+(* ------------------------------------------------------------------ part 3: order in which
+   Network.from_feedstock joins the recycle loops found by fill_path (network.py, the
+   `while recycle_networks:` block):
+
+       while recycle_networks:
+           for recycle_network in recycle_networks:                      pick
+               if not network.isdisjoint(recycle_network): break
+           else:
+               recycle_network = recycle_networks[0]
+           recycle_networks = [i for i in recycle_networks if i is not recycle_network]
+           network.join_recycle_network(recycle_network)
+
+   Abstraction of join_recycle_network on the top-level network (whose own recycle is None at
+   this stage): it raises ValueError('networks must have units in common to join') when the loop
+   shares no unit with the network, otherwise network.units becomes the union.  Loops carry their
+   position in the list returned by find_linear_and_cyclic_paths_with_recycle. *)
+Definition disjointb (a b : list nat) : bool := forallb (fun x => negb (memb x b)) a.
+
+Definition loop := (nat * list nat)%type.
+
+Fixpoint pick (N : list nat) (ls : list loop) : option (list loop * loop * list loop) :=
+  match ls with
+  | [] => None
+  | L :: t =>
+      if disjointb (snd L) N then
+        match pick N t with
+        | Some (b, x, a) => Some (L :: b, x, a)
+        | None => None
+        end
+      else Some ([], L, t)
+  end.
+
+(* result: the calls network.join_recycle_network(loop) made, as (loop position, network.units
+   before the call), and whether all of them returned (false = the last one raised) *)
+Fixpoint join_loops (fuel : nat) (N : list nat) (ls : list loop) : list (nat * list nat) * bool :=
+  match fuel with
+  | O => ([], true)
+  | S f =>
+      match ls with
+      | [] => ([], true)
+      | first :: rest =>
+          let '(b, L, a) := match pick N ls with Some x => x | None => ([], first, rest) end in
+          if disjointb (snd L) N then ([(fst L, N)], false)
+          else let '(js, ok) := join_loops f (add_all N (snd L)) (b ++ a) in ((fst L, N) :: js, ok)
+      end
+  end.
+
+Definition number {A} (l : list A) : list (nat * A) := combine (seq 0 (length l)) l.
+
+Definition join_order (N : list nat) (loops : list (list nat)) :=
+  join_loops (length loops) N (number loops).
+
+(* the variant that ranks the loops once, before the first join (stable sort on `isdisjoint`),
+   and then joins them in that order: kept only to show that it is NOT equivalent *)
+Fixpoint join_in_order (N : list nat) (ls : list loop) : list (nat * list nat) * bool :=
+  match ls with
+  | [] => ([], true)
+  | L :: t =>
+      if disjointb (snd L) N then ([(fst L, N)], false)
+      else let '(js, ok) := join_in_order (add_all N (snd L)) t in ((fst L, N) :: js, ok)
+  end.
+Definition join_ranked_once (N : list nat) (loops : list (list nat)) :=
+  let ls := number loops in
+  join_in_order N (filter (fun L => negb (disjointb (snd L) N)) ls ++ filter (fun L => disjointb (snd L) N) ls).
+
+Definition join_case (N : list nat) (loops : list (list nat))
+           (exp_calls : list (nat * list nat)) (exp_ok : bool) : bool :=
+  let '(js, ok) := join_order N loops in
+  Bool.eqb ok exp_ok
+  && list_eqb (fun a b => Nat.eqb (fst a) (fst b) && set_eqb (snd a) (snd b)) js exp_calls.
